@@ -68,6 +68,7 @@ ExpectInv ==
      LET r == Rec[l] IN
      PrintT(ToJson([id |-> r.id,
                     doc |-> IF r.kind = "map" THEN Canon(ShapeD(r.v, Lookup(r.prog, r.d), r.prog)) ELSE Canon(DenoteLit(r.ast)),
+                    src |-> IF r.kind = "lit" THEN Src(r.ast) ELSE "",
                     indomain |-> InDomain(r)]))
 
 \* checked at the last state: every record consumed; the summary is printed for the driver
